@@ -89,6 +89,8 @@ def main():
     demo = os.path.join(wt, f"variant_{variant}_demo.rs")
     note = os.path.join(wt, f"variant_{variant}.md")
     sid = f"{prop}_{variant}"
+    if "--id" in sys.argv:
+        sid = sys.argv[sys.argv.index("--id") + 1]
     out = os.path.join(OUT_ROOT, sid)
     meta = {"id": sid, "property": prop, "source": "independent sub-agent given only the property text", "confirmed": {}}
     ensure_sv()
